@@ -21,6 +21,7 @@ import WowVerif.Model.Cfg
 import WowVerif.Model.Wireshark
 import WowVerif.Model.Example
 import WowVerif.Thm.C17c
+import WowVerif.Thm.C17d
 import Std.Data.HashMap
 import WowVerif.Model.SizeFn
 namespace WowVerif.Driver
@@ -537,6 +538,7 @@ partial def term : List String → Option (SzT × List String)
   | "lt" :: k :: r => k.toNat?.map fun k => (.lenTimes k, r)
   | "call" :: r => (terms r).map fun (ts, r) => (.call ts, r)
   | "fold" :: r => (term r).map fun (t, r) => (.fold t, r)
+  | "opt" :: r => (terms r).map fun (ts, r) => (.opt ts, r)
   | "other" :: r => some (.other, r)
   | _ => none
 partial def terms : List String → Option (SzTs × List String)
@@ -548,7 +550,7 @@ end
 mutual
 partial def showT : SzT → String
   | .const n => s!"c {n}" | .lenPlus k => s!"lp {k}" | .pg => "pg" | .prim n => s!"pr {n}" | .lenTimes k => s!"lt {k}"
-  | .call ts => s!"call {showTs ts}end" | .fold t => s!"fold {showT t}" | .other => "other"
+  | .call ts => s!"call {showTs ts}end" | .fold t => s!"fold {showT t}" | .opt ts => s!"opt {showTs ts}end" | .other => "other"
 partial def showTs : SzTs → String
   | .nil => ""
   | .cons t ts => s!"{showT t} {showTs ts}"
@@ -686,6 +688,26 @@ def semHandle (st : DState) (ws : List String) : Option String :=
       let m0 := Wireshark.flatMatchesDir { s2c := false } c p
       let m1 := Wireshark.flatMatchesDir { s2c := true } c p
       some s!"flat={if Wireshark.isFlat c then 1 else 0} match={if Wireshark.flatMatches c p then 1 else 0} c2s={if m0 then 1 else 0} s2c={if m1 then 1 else 0}"
+    | none, _ => some "nows"
+    | _, none => some "nokey"
+  | ["wsmatch", name, key, ver] =>
+    -- the same for login cases (inside a `switch (protocol_version)`): Thm/C17d.lean walk_ends_login
+    match st.wsprogs.get? name, st.corpus.get? key, ver.toNat? with
+    | some p, some (_, c), some ver =>
+      let m0 := Wireshark.walkMatches c (Wireshark.dirBody { s2c := false, version := ver } (Wireshark.verBody { s2c := false, version := ver } p))
+      let m1 := Wireshark.walkMatches c (Wireshark.dirBody { s2c := true, version := ver } (Wireshark.verBody { s2c := true, version := ver } p))
+      some s!"wf={if Sem.wfMs c then 1 else 0} c2s={if m0 then 1 else 0} s2c={if m1 then 1 else 0}"
+    | none, _, _ => some "nows"
+    | _, none, _ => some "nokey"
+    | _, _, _ => some "bad-op"
+  | ["wsmatch", name, key] =>
+    -- C17: the verified structural matcher (Thm/C17d.lean walk_ends / walk_ends_dir): arrays, conditionals, nested structs, optional tails.
+    -- Program variables and definition fields carry the same numbers (both by field name); `match` covers all values of a well-formed definition
+    match st.wsprogs.get? name, st.corpus.get? key with
+    | some p, some (_, c) =>
+      let m0 := Wireshark.walkMatches c (Wireshark.dirBody { s2c := false } p)
+      let m1 := Wireshark.walkMatches c (Wireshark.dirBody { s2c := true } p)
+      some s!"wf={if Sem.wfMs c then 1 else 0} c2s={if m0 then 1 else 0} s2c={if m1 then 1 else 0}"
     | none, _ => some "nows"
     | _, none => some "nokey"
   | ["trace", key, hex] =>
